@@ -1385,3 +1385,10 @@ package main
 //@   ensures [C17] ring_always_rebuilt: c.ring != nil
 //@   ensures [C17] ring_filled_once: called("Add") == old(called("Add")) + 1
 //@   ensures [C17] from_the_list_given: nodes != nil ==> len(keys) == len(nodes)
+
+// C16: "become collectable after the grace period": every garbage-collection run takes its cut-off from the clock at that
+// run - not from a moment fixed when the collector was started.
+//@ func largeFileRunGarbageCollection__1()
+//@   modifies inferred
+//@   loop 1
+//@     iterates [C16] cutoff_follows_the_clock: called("DeleteUnused") > prev(called("DeleteUnused")) ==> called("Now") > prev(called("Now"))
